@@ -137,7 +137,7 @@ def run_best(facts_dir):
     if any(nfail(R0, p) for p in ALL_PROPS):
         try:
             cands = flatten.helper_candidates(F0)
-            if cands:
+            if True:
                 F1, rep = flatten.flatten(F0, set(cands))
                 _, _, R1 = _run_on(F1)
                 views.append(('helpers-inlined', R1))
